@@ -338,4 +338,210 @@ Proof.
     cbn. rewrite Htx2, Hca2, Hap2, Hrx2, Htx1, Hca1, Hap1, Hrx1, Mr, Mp. repeat split; assumption.
 Qed.
 
+
+(* ------------------------------------------------------------------------------------------ *)
+(* C06_collision_leaves                                                                         *)
+
+(* ListenToken: EVERY telegram whose source address is the own address counts (tokens and data
+   telegrams alike, addressed to anybody); the first is tolerated, the second takes the station offline:
+   the whole station is re-created (set_offline = FdlActiveStation::new with the same parameters). *)
+Lemma listen_collision now f (w : W) t il sr cc f' w' u :
+  f_state f = ListenToken sr cc -> f_conn f <> ConnOffline -> source_address t = Some (ts f) ->
+  listen_token_telegram A now (f, w) t il = Ok (f', w', u) ->
+  cc + 1 <= 255 /\
+  if cc + 1 =? listen_collision_tolerated
+  then f_state f' = ListenToken sr (cc + 1) /\ f_conn f' = f_conn f /\ f_ring f' = f_ring f
+  else fdl_new (f_p f) = Ok f'.
+Proof.
+  intros Hst Hc Hsrc H. unfold listen_token_telegram in H.
+  destruct (mark_rx_frame f now) as [Mp [Mr [_ [Ms [Mc _]]]]].
+  assert (Hts : ts (mark_rx f now) = ts f) by (apply ts_p; exact Mp).
+  assert (Hrest :
+    (if opt_eqb (source_address t) (Some (ts (mark_rx f now)))
+     then let* (sr, cc) := get_listen_token (f_state (mark_rx f now)) in
+          let* cc0 := u8_add cc 1 in
+          let f0 := set_st (mark_rx f now) (ListenToken sr cc0) in
+          if cc0 =? listen_collision_tolerated then Ok (f0, note A w TLtCollisionFirst, tt)
+          else let* f1 := set_offline f0 in Ok (f1, note A w TLtCollisionOffline, tt)
+     else match t with
+          | TData h _ =>
+              if is_fdl_status_request h && (h_da h =? ts (mark_rx f now))
+              then if il
+                   then let* (_, cc) := get_listen_token (f_state (mark_rx f now)) in
+                        Ok (set_st (mark_rx f now) (ListenToken (Some (h_sa h)) cc), note A w TLtStatusReqLast, tt)
+                   else Ok (mark_rx f now, note A w TLtStatusReqNotLast, tt)
+              else Ok (mark_rx f now, note A w TLtOther, tt)
+          | TToken da sa => let* r := witness (f_ring (mark_rx f now)) sa da in Ok (set_ring (mark_rx f now) r, note A w TLtWitness, tt)
+          | TShortConf => Ok (mark_rx f now, note A w TLtOther, tt)
+          end) = Ok (f', w', u) ->
+    cc + 1 <= 255 /\
+    if cc + 1 =? listen_collision_tolerated
+    then f_state f' = ListenToken sr (cc + 1) /\ f_conn f' = f_conn f /\ f_ring f' = f_ring f
+    else fdl_new (f_p f) = Ok f').
+  { clear H. intros H. rewrite Hsrc, Hts in H. cbn [opt_eqb] in H. rewrite Z.eqb_refl in H.
+    rewrite Ms, Hst in H. cbn [get_listen_token bind] in H.
+    unfold u8_add in H. destruct (Z.leb_spec (cc + 1) 255) as [Hle|_]; cbn [bind] in H; [|discriminate H].
+    split; [exact Hle|].
+    destruct (cc + 1 =? listen_collision_tolerated).
+    - injection H as <- _ _. cbn. rewrite Mc, Mr. repeat split; reflexivity.
+    - unfold set_offline, set_state in H. cbn [set_st f_p] in H. rewrite Mp in H.
+      destruct (fdl_new (f_p f)) as [g| |]; cbn [bind] in H; try discriminate H. injection H as <- _ _. reflexivity. }
+  rewrite Mc in H. destruct (f_conn f).
+  - contradiction Hc; reflexivity.
+  - exact (Hrest H).
+  - exact (Hrest H).
+Qed.
+
+(* ListenToken with nothing pending, one complete telegram newly in the buffer *)
+Lemma lt_single_poll f now buf (apps : list A) cc t f' o a c :
+  f_conn f = ConnOnline -> f_state f = ListenToken None cc ->
+  (forall l, f_lba f = Some l -> l < now) -> (f_pending f < length buf)%nat ->
+  decode_spec buf = Accept t (length buf) -> 0 < token_lost_timeout (f_p f) ->
+  poll ops f now (mkPhyIn false buf) apps = Ok (f', o, a, c) ->
+  exists fm f1 (w0 w1 : W),
+    f_state fm = f_state f /\ f_ring fm = f_ring f /\ f_p fm = f_p f /\ f_conn fm = f_conn f /\
+    listen_token_telegram A now (fm, w0) t true = Ok (f1, w1, tt) /\
+    f_state f' = f_state f1 /\ f_ring f' = f_ring f1 /\ f_p f' = f_p f1 /\ f_conn f' = f_conn f1 /\
+    o = mkPhyOut None [].
+Proof.
+  intros Hc Hst Hlba Hpend Hdec Hto H.
+  apply poll_inv in H. destruct H as [w' [H [-> [_ _]]]]. cbn [tx_busy rx] in H.
+  rewrite poll_inner_online in H; [|exact Hc|rewrite Hst; reflexivity].
+  unfold body in H. cbn [orb] in H.
+  assert (Hpred : predicted f now = false).
+  { unfold predicted. destruct (f_lba f) as [l|] eqn:El; [|reflexivity]. apply Z.leb_gt. apply Hlba. reflexivity. }
+  rewrite Hpred in H.
+  destruct (check_for_bus_activity A f now _) as [f1 w1] eqn:Ec.
+  apply cfba_new_bytes in Ec; [|exact Hpred|exact Hpend].
+  destruct Ec as [[Hp1 [Hr1 [Hc1 [_ [Hs1 _]]]]] [Hl1 [_ [Htx1 [_ [Hrx1 _]]]]]].
+  cbn [w_tx w_rx] in Htx1, Hrx1.
+  unfold dispatch in H. rewrite Hs1, Hst in H. cbn [kind_of poll_dispatch] in H.
+  unfold do_listen_token, assert_entry in H. rewrite Hs1, Hst in H. cbn [kind_of do_fn_entry state_kind_eqb bind] in H.
+  rewrite (handle_lost_token_quiet A f1 now w1 now Hl1) in H;
+    [|rewrite Z.sub_diag; reflexivity|rewrite Z.sub_diag, Hp1; cbn; exact Hto].
+  cbn [bind] in H. rewrite Hs1, Hst in H. cbn [get_listen_token bind] in H.
+  unfold receive_all_telegrams in H. rewrite Hrx1 in H. unfold receive_all_fuel in H.
+  rewrite receive_all_step, Hdec in H. cbv zeta in H. rewrite Nat.eqb_refl in H.
+  destruct (listen_token_telegram A now (f1, w1) t true) as [[[f2 w2] []]| |] eqn:Eh; cbn [bind] in H; try discriminate H.
+  injection H as <- <-.
+  pose proof (listen_token_telegram_keeps A now _ _ _ _ _ Eh) as Hk. cbn [snd] in Hk.
+  exists f1, f2, w1, w2.
+  split; [congruence|]. split; [congruence|]. split; [congruence|]. split; [congruence|].
+  split; [exact Eh|]. cbn. rewrite skipn_all, Hk, Htx1. repeat split; reflexivity.
+Qed.
+
+(* C06_collision_leaves, ActiveIdle, as a history of two polls: a token telegram with the own address
+   as source (whoever it is addressed to) is tolerated once - the station stays in the ring and only
+   counts; a second one in a row makes it leave the ring for ListenToken.  (A token of any other station
+   in between resets the counter: C11_not_last_only_witnessed / C11_accept_iff give ActiveIdle _ _ 0.)
+   Only token telegrams are examined here, unlike in ListenToken. *)
+Theorem collision_active_idle f now1 (apps : list A) nps da1 f1 o1 a1 c1 :
+  f_conn f = ConnOnline -> f_state f = ActiveIdle None nps 0 ->
+  (forall l, f_lba f = Some l -> l < now1) -> (f_pending f < 3)%nat -> 0 < token_lost_timeout (f_p f) ->
+  poll ops f now1 (mkPhyIn false (encode_token da1 (ts f))) apps = Ok (f1, o1, a1, c1) ->
+  (f_state f1 = ActiveIdle None nps 1 /\ is_in_ring f1 = true /\ f_ring f1 = f_ring f /\ o1 = mkPhyOut None [] /\ a1 = apps /\ c1 = []) /\
+  forall now2 da2 f2 o2 a2 c2, now1 < now2 ->
+    poll ops f1 now2 (mkPhyIn false (encode_token da2 (ts f))) a1 = Ok (f2, o2, a2, c2) ->
+    f_state f2 = ListenToken None 0 /\ is_in_ring f2 = false /\ f_ring f2 = f_ring f /\ o2 = mkPhyOut None [] /\ c2 = [].
+Proof.
+  intros Hc Hst Hlba Hpend Hto H.
+  apply ai_single_poll with (nps := nps) (cc := 0) (t := TToken da1 (ts f)) in H; try assumption; try reflexivity.
+  destruct H as [fm [g1 [w0 [w1 [Hsm [Hrm [Hpm [Hcm [Hh [Hs1 [Hr1 [Hp1 [Hc1 [Hl1 [Hpe1 [-> [-> ->]]]]]]]]]]]]]]]]].
+  rewrite <- (ts_p fm f Hpm) in Hh.
+  pose proof Hh as Hheard. apply handle_telegram_heard in Hheard; [|rewrite Hsm, Hst; exact I].
+  destruct Hheard as [_ [_ [Hpg _]]].
+  apply (handle_telegram_collision A fm w0 now1 None nps 0 da1 true g1 w1) in Hh; [|rewrite Hsm; exact Hst].
+  destruct Hh as [_ [Hrg [Hcg Hsg]]]. cbn in Hsg.
+  assert (Hst1 : f_state f1 = ActiveIdle None nps 1) by congruence.
+  split; [repeat split; try congruence; unfold is_in_ring; rewrite Hst1; reflexivity|].
+  intros now2 da2 f2 o2 a2 c2 Hnow H2.
+  assert (Hpp1 : f_p f1 = f_p f) by congruence.
+  assert (Hcc1 : f_conn f1 = ConnOnline) by congruence.
+  assert (Hlba1 : forall l, f_lba f1 = Some l -> l < now2) by (intros l El; rewrite Hl1 in El; injection El as <-; exact Hnow).
+  assert (Hpend1 : (f_pending f1 < 3)%nat) by (rewrite Hpe1; lia).
+  assert (Hto1 : 0 < token_lost_timeout (f_p f1)) by (rewrite Hpp1; exact Hto).
+  apply ai_single_poll with (nps := nps) (cc := 1) (t := TToken da2 (ts f)) in H2; try assumption; try reflexivity.
+  destruct H2 as [fm2 [g2 [w02 [w12 [Hsm2 [Hrm2 [Hpm2 [_ [Hh2 [Hs2 [Hr2 [_ [_ [_ [_ [-> [_ ->]]]]]]]]]]]]]]]]].
+  assert (Hts2 : ts fm2 = ts f) by (apply ts_p; congruence).
+  rewrite <- Hts2 in Hh2.
+  apply (handle_telegram_collision A fm2 w02 now2 None nps 1 da2 true g2 w12) in Hh2; [|rewrite Hsm2; exact Hst1].
+  destruct Hh2 as [_ [Hrg2 [_ Hsg2]]]. cbn in Hsg2.
+  assert (Hst2 : f_state f2 = ListenToken None 0) by congruence.
+  repeat split; try congruence. unfold is_in_ring. rewrite Hst2. reflexivity.
+Qed.
+
+(* C06_collision_leaves, ListenToken, as a history of two polls: any telegram t carrying the own address
+   as source is tolerated once; the second such telegram takes the station offline. *)
+Theorem collision_listen f now1 (apps : list A) buf1 t1 f1 o1 a1 c1 :
+  f_conn f = ConnOnline -> f_state f = ListenToken None 0 ->
+  (forall l, f_lba f = Some l -> l < now1) -> f_pending f = 0%nat -> 0 < token_lost_timeout (f_p f) ->
+  decode_spec buf1 = Accept t1 (length buf1) -> source_address t1 = Some (ts f) ->
+  poll ops f now1 (mkPhyIn false buf1) apps = Ok (f1, o1, a1, c1) ->
+  (f_state f1 = ListenToken None 1 /\ f_conn f1 = ConnOnline /\ f_ring f1 = f_ring f /\ o1 = mkPhyOut None []) /\
+  forall now2 buf2 t2 f2 o2 a2 c2, now1 < now2 ->
+    decode_spec buf2 = Accept t2 (length buf2) -> source_address t2 = Some (ts f) ->
+    poll ops f1 now2 (mkPhyIn false buf2) a1 = Ok (f2, o2, a2, c2) ->
+    f_conn f2 = ConnOffline /\ f_state f2 = Offline /\ is_in_ring f2 = false /\ o2 = mkPhyOut None [].
+Proof.
+  intros Hc Hst Hlba Hpend Hto Hd1 Hsrc1 H.
+  assert (Hlen : forall buf t, decode_spec buf = Accept t (length buf) -> (0 < length buf)%nat).
+  { intros buf t Hd. destruct buf; [discriminate Hd|cbn; lia]. }
+  pose proof H as Hpoll1.
+  apply lt_single_poll with (cc := 0) (t := t1) in H; try assumption; [|rewrite Hpend; exact (Hlen _ _ Hd1)].
+  destruct H as [fm [g1 [w0 [w1 [Hsm [Hrm [Hpm [Hcm [Hh [Hs1 [Hr1 [Hp1 [Hc1 ->]]]]]]]]]]]]].
+  apply (listen_collision now1 fm w0 t1 true None 0 g1 w1 tt) in Hh;
+    [|rewrite Hsm; exact Hst|rewrite Hcm, Hc; discriminate|rewrite (ts_p fm f Hpm); exact Hsrc1].
+  destruct Hh as [_ Hh]. cbn in Hh. destruct Hh as [Hsg [Hcg Hrg]].
+  assert (Hst1 : f_state f1 = ListenToken None 1) by congruence.
+  assert (Hcc1 : f_conn f1 = ConnOnline) by congruence.
+  split; [repeat split; congruence|].
+  intros now2 buf2 t2 f2 o2 a2 c2 Hnow Hd2 Hsrc2 H2.
+  (* bookkeeping after poll 1: last_bus_activity = now1, pending = 0 *)
+  assert (Hbk : f_lba f1 = Some now1 /\ f_pending f1 = 0%nat /\ f_p f1 = f_p f).
+  { apply poll_inv in Hpoll1. destruct Hpoll1 as [w' [Hp' _]]. cbn [tx_busy rx] in Hp'.
+    rewrite poll_inner_online in Hp'; [|exact Hc|rewrite Hst; reflexivity].
+    unfold body in Hp'. cbn [orb] in Hp'.
+    assert (Hpred : predicted f now1 = false).
+    { unfold predicted. destruct (f_lba f) as [l|] eqn:El; [|reflexivity]. apply Z.leb_gt. apply Hlba. reflexivity. }
+    rewrite Hpred in Hp'.
+    destruct (check_for_bus_activity A f now1 _) as [h1 v1] eqn:Ec.
+    apply cfba_new_bytes in Ec; [|exact Hpred|cbn [w_rx]; rewrite Hpend; exact (Hlen _ _ Hd1)].
+    destruct Ec as [[Hph [_ [Hch [_ [Hsh _]]]]] [Hlh [_ [_ [_ [Hrxh _]]]]]]. cbn [w_rx] in Hrxh.
+    assert (Hconn : f_conn h1 = ConnOnline) by congruence.
+    unfold dispatch in Hp'. rewrite Hsh, Hst in Hp'. cbn [kind_of poll_dispatch] in Hp'.
+    unfold do_listen_token, assert_entry in Hp'. rewrite Hsh, Hst in Hp'. cbn [kind_of do_fn_entry state_kind_eqb bind] in Hp'.
+    rewrite (handle_lost_token_quiet A h1 now1 v1 now1 Hlh) in Hp';
+      [|rewrite Z.sub_diag; reflexivity|rewrite Z.sub_diag, Hph; cbn; exact Hto].
+    cbn [bind] in Hp'. rewrite Hsh, Hst in Hp'. cbn [get_listen_token bind] in Hp'.
+    unfold receive_all_telegrams in Hp'. rewrite Hrxh in Hp'. unfold receive_all_fuel in Hp'.
+    rewrite receive_all_step, Hd1 in Hp'. cbv zeta in Hp'. rewrite Nat.eqb_refl in Hp'.
+    destruct (listen_token_telegram A now1 (h1, v1) t1 true) as [[[h2 v2] []]| |] eqn:Eh; cbn [bind] in Hp'; try discriminate Hp'.
+    injection Hp' as <- _.
+    pose proof Eh as Eh'.
+    apply (listen_collision now1 h1 v1 t1 true None 0 h2 v2 tt) in Eh';
+      [|rewrite Hsh; exact Hst|rewrite Hconn; discriminate|rewrite (ts_p h1 f Hph); exact Hsrc1].
+    destruct Eh' as [_ Eh']. cbn in Eh'.
+    unfold listen_token_telegram in Eh.
+    destruct (mark_rx_frame h1 now1) as [Mp [_ [_ [Ms [Mc _]]]]].
+    assert (Hmlba : f_lba (mark_rx h1 now1) = Some now1 /\ f_pending (mark_rx h1 now1) = 0%nat).
+    { unfold mark_rx, mark_bus_activity, lba_get_or_insert. cbn. rewrite Hlh. cbn. rewrite Z.max_id. split; reflexivity. }
+    rewrite Mc in Eh.
+    rewrite Hconn in Eh.
+    rewrite Hsrc1, (ts_p (mark_rx h1 now1) f) in Eh by congruence. cbn [opt_eqb] in Eh. rewrite Z.eqb_refl in Eh.
+    rewrite Ms, Hsh, Hst in Eh. cbn [get_listen_token bind u8_add] in Eh. cbn in Eh.
+    injection Eh as <- _. cbn. destruct Hmlba as [-> ->]. split; [reflexivity|split; [reflexivity|congruence]]. }
+  destruct Hbk as [Hl1 [Hpe1 Hpp1]].
+  apply lt_single_poll with (cc := 1) (t := t2) in H2; try assumption.
+  - destruct H2 as [fm2 [g2 [w02 [w12 [Hsm2 [Hrm2 [Hpm2 [Hcm2 [Hh2 [Hs2 [_ [_ [Hc2 ->]]]]]]]]]]]]].
+    apply (listen_collision now2 fm2 w02 t2 true None 1 g2 w12 tt) in Hh2;
+      [|rewrite Hsm2; exact Hst1|rewrite Hcm2, Hcc1; discriminate|rewrite (ts_p fm2 f); [exact Hsrc2|congruence]].
+    destruct Hh2 as [_ Hh2]. cbn in Hh2.
+    unfold fdl_new in Hh2. destruct (negb _); [discriminate Hh2|]. destruct (negb _); [discriminate Hh2|].
+    destruct (ring_new _); try discriminate Hh2. injection Hh2 as <-. cbn in Hs2, Hc2.
+    repeat split; try assumption. unfold is_in_ring. rewrite Hs2. reflexivity.
+  - intros l El. rewrite Hl1 in El. injection El as <-. exact Hnow.
+  - rewrite Hpe1. exact (Hlen _ _ Hd2).
+  - rewrite Hpp1. exact Hto.
+Qed.
+
 End WithApps.
